@@ -41,7 +41,10 @@ ID,build,suite,dw,dwo,verdict,rc,first,pkgs,tier,old=sys.argv[1:12]
 head=subprocess.check_output(['git','-C','/repo','rev-parse','--short','HEAD']).decode().strip()
 keep={}
 try:
-    keep={k:v for k,v in json.load(open(old)).items() if k in ('change','needs_to_manifest','round','history')}
+    o=json.load(open(old))
+    keep={k:v for k,v in o.items() if k in ('change','needs_to_manifest','round','history')}
+    if o.get('our_check_verdict') and o.get('our_check_verdict')!=verdict:
+        keep['history']=keep.get('history',[])+["earlier run of the check as it stood then: "+o['our_check_verdict']]
 except Exception: pass
 m=({"property":ID,"origin":"independent sub-agent given only the property text and a scratch worktree","repo_head_checked":head,
  "build_with_change":build,"pinned_suite_with_change":suite,"demo_with_change":dw,"demo_without_change":dwo,"demo_command":"go test -vet=off -count=1 -run Seed "+pkgs,
